@@ -297,9 +297,9 @@ def g_row(K, prop, fid, reps, tag="", inst=None, cparams=None):
     loc = F.loc(F.instances[root]["d"])
     S = _sg(K)
     out = []
-    if not S.is_wrapper(root, as_root=True):
+    if F.instances[root]["d"] not in F.bodies:
         return [Ob("%s:G:%s:%s%s" % (prop, K.config, fid, tag and ":" + tag), prop, "G", K.config, fid, UNDECIDED,
-                   "function has a loop; its guards are not summarised", loc)]
+                   "no MIR body for this function", loc)]
     tree = S.summary(root)
     if tree is None or tree[0] == "?":
         return [Ob("%s:G:%s:%s%s" % (prop, K.config, fid, tag and ":" + tag), prop, "G", K.config, fid, UNDECIDED,
